@@ -41,11 +41,11 @@ def build_config(sr, cfg, u):
         if P not in ('', '/'):
             sr.do('join uP U %s' % hx(P.lstrip('/').encode()))
             sr.do('create_dir_all uP')
+            sr.do('join uS U %s' % hx(b'outside'))
+            sr.syms['outside'] = sym_content(sr.ex, 1, 'outside')
+            sr.do('write uS $outside')
         else:
-            sr.paths['uP'] = sr.paths['U']
-        sr.do('join uS U %s' % hx(b'outside'))
-        sr.syms['outside'] = sym_content(sr.ex, 1, 'outside')
-        sr.do('write uS $outside')
+            sr.do('join uP U -')          # P is the underlying root: nothing lies outside
         sr.do('fs R alt uP')
     elif cfg == 'altalt':
         sr.do('fs U mem')
